@@ -19,7 +19,14 @@ def genC01Cases (tier : String) (seed : Nat) : Array Case := Id.run do
     let cfg : GenCfg := { suffixes := i % 3 = 0, maxDepth := if i % 5 = 0 then 4 else 3 }
     let (s, rng') := genC01 cfg rng
     rng := rng'
-    out := out.push (parseCase s!"c01-r{i}" (if cfg.suffixes then "rand+sfx" else "rand") s)
+    if i % 12 = 11 then
+      -- parenthesised phrases inside combinations: open known finding when they fail
+      let (s', rng'') := decorateStmtCombos s rng
+      rng := rng''
+      let c := parseCase s!"c01-p{i}" "paren-in-combination" s'
+      out := out.push { c with note := Json.mkObj [("kf", ((if parenInCombo s' then "C01-parenthesised-phrase-inside-combination" else "") : Json))] }
+    else
+      out := out.push (parseCase s!"c01-r{i}" (if cfg.suffixes then "rand+sfx" else "rand") s)
   pure out
 
 def kfParse (s : Stmt) : String := if supported s then "" else "C02-regex-shape"
